@@ -14,7 +14,8 @@ PROPERTY = "C05"
 RULE = (
     "exhaustive grid ploidy x n_alleles x F in {0,1/16..15/16,0.999} x frequency vectors {None, flat, dyadic-skewed, "
     "with a zero entry}: every unordered genotype (and every position for the conditional prior) is evaluated; plus "
-    "hypothesis-drawn random frequency vectors / larger ploidy and assemble priors over all haplotypes of 1-3 SNVs; "
+    "hypothesis-drawn random frequency vectors / larger ploidy and assemble priors over all haplotypes of 1-3 SNVs; single "
+    "genotypes (ploidy 1-12) in spaces of 100 to 3^20 haplotypes against a log-space reference (flat prior, call vs assemble); "
     "non-trivial = F>0 with non-flat frequencies, or a zero frequency entry, or an assemble space with >1 SNV; "
     "distinct by (function, ploidy, n_alleles, F, frequencies[, n_alleles vector])"
 )
@@ -202,7 +203,68 @@ def check_random(ctx, case):
     return [Problem(s, v["message"]) for s, v in sub.violations.items()]
 
 
+@st.composite
+def large_space(draw):
+    """Single genotypes in spaces far too large to enumerate (hundreds to millions of haplotypes, ploidy up to 12)."""
+    ploidy = draw(st.integers(1, 12))
+    n = draw(st.sampled_from([100, 127, 128, 129, 255, 256, 257, 1000, 2**11, 2**16, 10**6, 2**21, 3**20]))
+    k = draw(st.integers(1, min(ploidy, 6)))
+    distinct = sorted(draw(st.lists(st.sampled_from([0, 1, 2, n // 2, n - 2, n - 1]), min_size=k, max_size=k, unique=True)))
+    g = sorted(distinct + [draw(st.sampled_from(distinct)) for _ in range(ploidy - len(distinct))])
+    F = draw(st.sampled_from([0.0, 0.0, 1e-4, 0.005, 0.125, 0.5, 0.9375]))
+    return {"kind": "large_space", "ploidy": ploidy, "n_haplotypes": n, "genotype": g, "inbreeding": F}
+
+
+def check_large(ctx, case):
+    from mchap.assemble import prior as AP
+    from mchap.calling import prior as CP
+
+    problems = []
+    g, n, F, ploidy = case["genotype"], case["n_haplotypes"], case["inbreeding"], case["ploidy"]
+    counts = {}
+    for a in g:
+        counts[a] = counts.get(a, 0) + 1
+    # reference in log space: multinomial coefficient, rising factorials of the flat dispersion alpha = (1-F)/(F n)
+    ref = math.log(math.factorial(ploidy)) - sum(math.log(math.factorial(c)) for c in counts.values())
+    if F == 0:
+        ref -= ploidy * math.log(n)
+    else:
+        alpha = (1 - F) / F / n
+        for c in counts.values():
+            ref += sum(math.log(alpha + k) for k in range(c))
+        ref -= sum(math.log(n * alpha + k) for k in range(ploidy))
+    ctx.record(case, n ** ploidy >= 2 ** 63, ["large_space"] + (["n^ploidy>=2^63"] if n ** ploidy >= 2 ** 63 else []))
+    with guard(problems, "large_space"):
+        arr = np.array(g, dtype=np.int64)
+        lp_call = float(CP.log_genotype_prior(arr, n, inbreeding=F, frequencies=None))
+        dosage = np.array(sorted(counts.values(), reverse=True), dtype=np.int64)
+        lp_asm = float(AP.log_genotype_prior(dosage, math.log(n), F))
+        tol = ftol(F, ploidy) * 10 + 1e-9
+        if not lclose(lp_call, ref, tol):
+            problems.append(Problem("large_space:call_prior", "log_genotype_prior(%s, unique_haplotypes=%d, F=%r) = %r, flat %s prior is %r" % (g, n, F, lp_call, "multinomial" if F == 0 else "Dirichlet-multinomial", ref)))
+        if not lclose(lp_asm, ref, tol):
+            problems.append(Problem("large_space:assemble_prior", "assemble log_genotype_prior(dosage %s, log(%d), F=%r) = %r, reference %r" % (dosage.tolist(), n, F, lp_asm, ref)))
+        if ploidy > 1:
+            # the conditional prior of one allele given the others is the ratio of the joint priors of ploidy and ploidy-1 copies
+            i = len(g) - 1
+            rest = g[:i]
+            rc = {}
+            for a in rest:
+                rc[a] = rc.get(a, 0) + 1
+            if F == 0:
+                cond = -math.log(n)
+            else:
+                alpha = (1 - F) / F / n
+                cond = math.log(alpha + rc.get(g[i], 0)) - math.log(n * alpha + ploidy - 1)
+            lp_c = float(CP.log_genotype_allele_prior(arr, i, n, inbreeding=F, frequencies=None))
+            if not lclose(lp_c, cond, tol):
+                problems.append(Problem("large_space:allele_prior", "log_genotype_allele_prior(%s, position %d, unique_haplotypes=%d, F=%r) = %r, conditional is %r" % (g, i, n, F, lp_c, cond)))
+    return problems
+
+
 def replay(ctx, case):
+    if case["kind"] == "large_space":
+        return check_large(ctx, case)
     sub = type(ctx)(ctx.prop, ctx.tier, ctx.seed)
     if case["kind"] == "calling_space":
         check_space(sub, case["ploidy"], case["n_alleles"], case["inbreeding"], "replay", case["frequencies"])
@@ -237,3 +299,4 @@ def run(ctx):
     ctx.note("exhaustive_parts", "calling grid ploidy<=%d x alleles<=%d x %d F values x up to 5 frequency vectors (%d spaces); %d assemble spaces" % (max_p, max_n, len(F_GRID), len(jobs), len(ajobs)))
     ctx.exhaustive = False
     ctx.hyp("random_space", random_space(4 if quick else 8), check_random, 150 if quick else 600)
+    ctx.hyp("large_space", large_space(), check_large, 400 if quick else 3000)
